@@ -273,8 +273,9 @@ pub fn check_c11(case: &Case, st: &mut Stats) -> Verdict {
         || reference.files.iter().any(|f| f.len() >= (1 << 20))
         || reference.recs.len() > 200_000;
     let scale = if huge { 1usize << 14 } else { 1 };
+    let plan_shared = plan.shared_pos;
     let variants: Vec<(&str, EnvPlan)> = vec![
-        ("chop1", EnvPlan { modes: vec![IoMode::Chop { max: scale }], stream: plan.stream, faults: vec![], crash: None, buffered: !plan.buffered }),
+        ("chop1", EnvPlan { modes: vec![IoMode::Chop { max: scale }], stream: plan.stream, faults: vec![], crash: None, buffered: !plan.buffered, shared_pos: plan_shared }),
         ("as-generated", plan.clone()),
         (
             "chop-intr",
@@ -283,7 +284,7 @@ pub fn check_c11(case: &Case, st: &mut Stats) -> Verdict {
                 stream: mix(plan.stream, 77),
                 faults: vec![],
                 crash: None,
-                buffered: plan.stream % 2 == 0,
+                buffered: plan.stream % 2 == 0, shared_pos: plan_shared,
             },
         ),
     ];
@@ -295,7 +296,7 @@ pub fn check_c11(case: &Case, st: &mut Stats) -> Verdict {
             stream: mix(plan.stream, 99),
             faults: vec![],
             crash: None,
-            buffered: plan.stream % 3 == 0,
+            buffered: plan.stream % 3 == 0, shared_pos: plan_shared,
         },
     ));
     let mut io_opts = RunOpts::default();
@@ -352,8 +353,8 @@ pub fn gen_c12(rng: &mut Rng, tier: Tier) -> Case {
     let env = match rng.below(4) {
         0 => EnvPlan::whole(),
         1 => EnvPlan { buffered: true, ..EnvPlan::whole() },
-        2 => EnvPlan { modes: vec![IoMode::Chop { max: *rng.pick(&[64usize, 4096]) }, IoMode::Whole], stream: rng.next_u64(), faults: vec![], crash: None, buffered: rng.chance(1, 2) },
-        _ => EnvPlan { modes: vec![IoMode::ChopIntr { max: *rng.pick(&[64usize, 4096]), den: 16 }], stream: rng.next_u64(), faults: vec![], crash: None, buffered: rng.chance(1, 2) },
+        2 => EnvPlan { modes: vec![IoMode::Chop { max: *rng.pick(&[64usize, 4096]) }, IoMode::Whole], stream: rng.next_u64(), faults: vec![], crash: None, buffered: rng.chance(1, 2), shared_pos: false },
+        _ => EnvPlan { modes: vec![IoMode::ChopIntr { max: *rng.pick(&[64usize, 4096]), den: 16 }], stream: rng.next_u64(), faults: vec![], crash: None, buffered: rng.chance(1, 2), shared_pos: false },
     };
     with_env(&c, env)
 }
@@ -669,7 +670,7 @@ pub fn gen_tiny(rng: &mut Rng) -> Case {
     let env = if rng.chance(1, 2) {
         EnvPlan::whole()
     } else {
-        EnvPlan { modes: vec![IoMode::Chop { max: 64 }], stream: rng.next_u64(), faults: vec![], crash: None, buffered: rng.chance(1, 2) }
+        EnvPlan { modes: vec![IoMode::Chop { max: 64 }], stream: rng.next_u64(), faults: vec![], crash: None, buffered: rng.chance(1, 2), shared_pos: false }
     };
     // codecs are interpreted byte by byte under Miri (64 KiB hash tables per block): mostly None
     let codec = *rng.pick(&[0u8, 0, 0, 0, 0, 0, 0, 1]);
